@@ -140,7 +140,9 @@ class Worker(threading.Thread):
         names = {id(x): 'b%d' % i for i, x in enumerate(self.e['conns'])}
         if c is None:
             return '-'
-        return names.get(id(c), 't?' if type(c).__name__ == 'Transaction' else '??')
+        if type(c).__name__ == 'Transaction':
+            return 't' + names.get(id(getattr(c, '_dbConnection', None)), 'b?')[1:]
+        return names.get(id(c), '??')
 
     def do_resolve(self):
         """(this thread's threadConnection attribute, what this thread resolves to with its level)"""
@@ -243,6 +245,38 @@ class Worker(threading.Thread):
         del out
         return res
 
+    def do_run_gated(self, key, value, exc_obj):
+        """a call whose body stops in the middle and serves `resolve` requests until it is told to `go`: lets the main
+        thread overlap the calls of two threads in a chosen enter / leave order"""
+        hub, cls = self.e['hub'], self.e['cls']
+        rec = {}
+
+        def body():
+            try:
+                rec['inside'] = self.name_of(hub.getConnection())
+                rec['read'] = cls.get(key).v
+                self.outq.put(('ok', 'entered'))
+                while True:
+                    cmd = self.inq.get()
+                    if cmd[0] == 'go':
+                        break
+                    self.outq.put(('ok', getattr(self, 'do_' + cmd[0])(*cmd[1:])))
+                cls.get(key).v = value
+                rec['inside_after'] = self.name_of(hub.getConnection())
+                if exc_obj is not None:
+                    raise exc_obj
+            except BaseException as ex:
+                rec['left_body'] = ex
+                raise
+            return 7
+        try:
+            out = ('returned', hub.doInTransaction(body), True)
+        except BaseException as ex:
+            self.slot['exc'] = ex
+            out = ('raised', type(ex).__name__, ex is rec.get('left_body') and ex is exc_obj)
+        return {'outcome': out[0], 'detail': out[1], 'same_object': out[2], 'inside': rec.get('inside'),
+                'inside_after': rec.get('inside_after'), 'read': rec.get('read')}
+
     def do_collect(self):
         # drop the escaped exception and its traceback: reference counting alone must finish the transaction
         ex = self.slot.pop('exc', None)
@@ -308,6 +342,9 @@ def env():
         configure(_env, cfg, True)
         workers[1].call('run', [], None, None)
         workers[1].call('collect')
+    workers[2].pre = {}
+    workers[2].call('run', [], None, None)      # the second thread of the overlapping calls warms up its own connection
+    workers[2].call('collect')
     gc.collect()
     gc.freeze()
     _env['baseline'] = [len(c._pool) for c in conns]
@@ -585,6 +622,97 @@ def repeated_calls(ctx, e, only=None):
                 e['made'] = [c._connectionCount for c in e['conns']]
 
 
+def overlapping_calls(ctx, e):
+    """two threads, each with its own thread connection, inside doInTransaction at the same time; every enter order x
+    leave order x outcome of each body x autoCommit"""
+    workers = e['workers']
+    orders = [(a, b, first) for (a, b) in ((1, 2), (2, 1)) for first in (a, b)]
+    outcomes = [None, 'E', 'K']
+    n = 0
+    for ac, acv in AUTOCOMMITS:
+        configure(e, 'TP', acv)
+        e['configured'] = ('TP', ac)
+        for (a, b, first) in orders:
+            second = b if first == a else a
+            for oa in outcomes:
+                for ob in outcomes:
+                    n += 1
+                    raises = {a: oa, b: ob}
+                    excs = {t: (None if raises[t] is None else (E_CLASSES if raises[t] == 'E' else K_CLASSES)[n % 4]('overlap %d' % n))
+                            for t in (a, b)}
+                    evs = ['e%d' % a, 'e%d' % b, 'l%d' % first, 'l%d' % second]
+                    desc = {'overlap': evs, 'ac': ac, 'raises': {str(t): raises[t] for t in (a, b)}}
+                    key = 'C08:overlap:%s:ac%s:%s' % ('-'.join(evs), ac, ''.join(str(raises[t] or '-') for t in (1, 2)))
+                    reset_db(e)
+                    for w in workers:
+                        w.pre = {}
+                    seen = []
+
+                    def snap():
+                        seen.append('%s %s' % tuple('%d:%s' % (t, workers[t].call('resolve')[1]) for t in (1, 2)))
+                    res = {}
+                    for t in (a, b):
+                        workers[t].inq.put(('run_gated', t, 100 + t, excs[t]))
+                        got = workers[t].outq.get()
+                        if got != ('ok', 'entered'):
+                            res[t] = got[1]          # the call ended before the gate (only if the code is broken)
+                        snap()
+                    for t in (first, second):
+                        if t not in res:
+                            workers[t].inq.put(('go',))
+                            kind, val = workers[t].outq.get()
+                            res[t] = val
+                        snap()
+                        workers[t].call('collect')
+                    rows = raw_rows(e)
+                    proc = workers[0].name_of(getattr(e['hub'], 'processConnection', None))
+                    use = inuse(e)
+                    made = [c._connectionCount for c in e['conns']]
+                    ctx.case(key, sample={'case': desc, 'resolution after each event': seen}, kind='overlapping calls')
+                    # ---- oracle: expected resolution after every event, from the event list alone
+                    inside = set()
+                    want_seen = []
+                    for ev in evs:
+                        t = int(ev[1])
+                        if ev[0] == 'e':
+                            inside.add(t)
+                        else:
+                            inside.discard(t)
+                        want_seen.append(' '.join('%d:T:%s%d' % (x, 't' if x in inside else 'b', x) for x in (1, 2)))
+                    if seen != want_seen:
+                        ctx.oracle_fail(key + ':hub', 'overlapping calls %s: the threads resolved to [%s] after the events, expected [%s]'
+                                        % (evs, ' | '.join(seen), ' | '.join(want_seen)), desc)
+                    if proc != 'b0':
+                        ctx.oracle_fail(key + ':hub-process', 'overlapping thread-level calls changed the process binding to %s' % proc, desc)
+                    want_rows = dict(INITIAL)
+                    for t in (1, 2):
+                        r = res.get(t)
+                        if not isinstance(r, dict):
+                            ctx.oracle_fail(key + ':outcome', 'the call of thread %d ended early: %r' % (t, r), desc)
+                            continue
+                        if r['inside'] != 't%d' % t or (r['inside_after'] or 't%d' % t) != 't%d' % t:
+                            ctx.oracle_fail(key + ':not-in-transaction', 'inside its body thread %d resolved to %s / %s, not to its own '
+                                            'transaction' % (t, r['inside'], r['inside_after']), desc)
+                        if raises[t] is None:
+                            want_rows[t] = 100 + t
+                            if r['outcome'] != 'returned' or r['detail'] != 7:
+                                ctx.oracle_fail(key + ':outcome', 'thread %d: body returned 7, doInTransaction gave %s %s'
+                                                % (t, r['outcome'], r['detail']), desc)
+                        elif r['outcome'] != 'raised' or not r['same_object']:
+                            ctx.oracle_fail(key + ':identity', 'thread %d: the body raised %s, doInTransaction gave %s %s (same object: %s)'
+                                            % (t, type(excs[t]).__name__, r['outcome'], r['detail'], r['same_object']), desc)
+                    if rows != want_rows:
+                        ctx.oracle_fail(key + ':rows', 'committed rows are%s, expected%s' % (fmt_rows(rows), fmt_rows(want_rows)), desc)
+                    if any(use) or made != e['made']:
+                        ctx.oracle_fail(key + ':pool', 'pool not restored after overlapping calls: in use %s, opened %s -> %s'
+                                        % (use, e['made'], made), desc)
+                        e['made'] = made
+                    # ---- correspondence
+                    outs = ctx.model(['O ' + ' '.join(evs)])
+                    ctx.compare('overlapping calls, resolution of both threads after every enter / leave: model = implementation',
+                                desc, outs[0] if outs is not None else None, ' | '.join(seen))
+
+
 def line_for(case, idx):
     cfg, ac, mode, word, ra, kind = case
     steps = concrete_steps(word)
@@ -600,6 +728,7 @@ def run(ctx):
     for i, c in enumerate(cases):
         run_case(ctx, e, c, i, outs[i] if outs is not None else None)
     repeated_calls(ctx, e)
+    overlapping_calls(ctx, e)
 
 
 def replay(case):
@@ -617,9 +746,17 @@ def replay(case):
         def count(self, *a, **k):
             pass
 
+        def model(self, lines):
+            return None
+
         def oracle_fail(self, key, what, c):
             self.fails.append('%s: %s' % (key, what))
     d = Dummy()
+    if case.get('overlap'):
+        overlapping_calls(d, e)
+        want = '-'.join(case['overlap'])
+        mine = [f for f in d.fails if ':%s:ac%s:' % (want, case['ac']) in f]
+        return not mine, '\n'.join(mine) or 'property holds on this case'
     if case.get('repeat'):
         repeated_calls(d, e, only=(case['cfg'], case['ac']))
         return not d.fails, '\n'.join(d.fails) or 'property holds on this case'
